@@ -14,8 +14,10 @@
        GetEntriesFrom on it fails with ErrWALClosed.                      [p_live, p_obs_next]
    P2  getWALEntriesFromSequence(from): nothing if the (observed) log is empty or from is
        beyond it; the error of a closed log; otherwise the entries with seq >= from of all
-       files, cut to the first 100 ENTRIES (a transaction's entries share one number, so the
-       cut can fall inside a transaction).                                            [fetch]
+       files, cut after the first 100 entries but never inside a sequence number (repaired by
+       f62340e: the cut is extended to the end of the number it falls in; before that a
+       transaction straddling the 100th entry was torn for good, see ReplProtoProofs.v
+       BeforeFixes).                                                       [fetch, cut_fetch]
    P3  StreamWAL(start): the replica sends start = the next number it expects; the primary
        stores StartSequence = LastAckSequence = start, sends fetch(start) once
        (sendInitialEntries; an error ends the stream), then every 100 ms, while the observed
@@ -76,9 +78,26 @@ Inductive fres := FOk (es : list entry) | FErr.
 Definition from_seq (from : N) (l : list entry) : list entry :=
   filter (fun e => from <=? eseq e) l.
 
+(* the leading entries numbered s *)
+Fixpoint same_seq (s : N) (l : list entry) : list entry :=
+  match l with
+  | e :: r => if eseq e =? s then e :: same_seq s r else []
+  | [] => []
+  end.
+
+(* the first k entries, extended to the end of the sequence number the cut falls in *)
+Definition cut_at (k : nat) (l : list entry) : list entry :=
+  let a := firstn k l in
+  a ++ same_seq (eseq (last a (mkW 0 0 [] []))) (skipn k l).
+
+Definition cut_fetch (l : list entry) : list entry := cut_at MaxFetch l.
+
+(* the code before f62340e: a plain cut *)
+Definition cut_fetch_old (l : list entry) : list entry := firstn MaxFetch l.
+
 Definition fetch (p : pstate) (from : N) : fres :=
   if (cur p =? 0) || (cur p <? from) then FOk []
-  else if p_live p then FOk (firstn MaxFetch (from_seq from (p_log p)))
+  else if p_live p then FOk (cut_fetch (from_seq from (p_log p)))
   else FErr.
 
 (* a write of the primary's client *)
@@ -345,19 +364,3 @@ Fixpoint settle (n : nat) (p : pstate) (r : rstate) : rstate :=
   | O => r
   | S n' => if idle p r then r else settle n' p (tick good p r)
   end.
-
-(* ---------- guards of the partial theorem (decidable, on the log) ---------- *)
-(* no response cut falls inside a transaction: for every start number, if more than 100
-   entries follow, the 100th and the 101st carry different numbers *)
-Definition cut_ok (es : list entry) : bool :=
-  match nth_error es (MaxFetch - 1), nth_error es MaxFetch with
-  | Some a, Some b => negb (eseq a =? eseq b)
-  | _, _ => true
-  end.
-
-Fixpoint seqs_upto (n : nat) : list N :=
-  match n with O => [] | S n' => seqs_upto n' ++ [N.of_nat n] end.
-
-Definition cuts_ok (l : list entry) : bool :=
-  forallb (fun s => cut_ok (from_seq s l)) (seqs_upto (N.to_nat (last_seq l))).
-
